@@ -437,14 +437,14 @@ def step (d : DState) (line : String) : DState × String :=
       | none => (d, "crash")
     | _ => (d, "bad-op")
   -- C11: `rebuild_state_from_ticks(init_state, ticks)` as the theorems model it (`replayTicks`): the current state is the
-  -- init state; `rbtick` appends one tick to the list; `rebuild <now0> <clk> <policy>` rewinds at `now0`, reduces every
+  -- init state; `rbtick` appends one tick to the list; `rbuild <now0> <clk> <policy>` (named apart from C31's `rebuild`) rewinds at `now0`, reduces every
   -- tick at `clk`, and prints the rebuilt state, `running_steps()` of it and the context loaded from its serialisation
   | ["rbclear"] => ({ d with ticks := [] }, "ok")
   | "rbtick" :: ts =>
     match tick ts with
     | some (t, []) => ({ d with ticks := d.ticks ++ [t] }, "ok")
     | _ => (d, "bad-op")
-  | "rebuild" :: ts =>
+  | "rbuild" :: ts =>
     match (do let now0 ← int; let clk ← int; let p ← policy; pure (now0, clk, p)) ts with
     | some ((now0, clk, p), []) =>
       match replayTicks d.cfg p d.st now0 (fun _ => clk) d.ticks with
